@@ -4,6 +4,7 @@
 use std::io::{BufRead, Write};
 
 mod syn;
+mod ast_walk_gen;
 mod util;
 mod li;
 mod ws;
@@ -66,6 +67,7 @@ fn dispatch(cmd: &str, rest: &str) -> String {
         "prep" => syn::prep(&util::unhex_str(rest)),
         "parse" => syn::parse(&util::unhex_str(rest), false),
         "parseh" => syn::parse(&util::unhex_str(rest), true),
+        "astwalk" => syn::astwalk(&util::unhex_str(rest)),
         "oracle01" => syn::oracle01(&util::unhex_str(rest)),
         "steps" => syn::steps(&util::unhex_str(rest)),
         "li" => li::run(rest),
